@@ -547,9 +547,41 @@ theorem pres_logonReply (p : Bool) (g0 : G2) (s : Sess) (m : InMsg) (flag : Bool
   unfold logonReply
   c2_cases
 
-theorem pres_logonFinish (p : Bool) (g0 : G2) (s : Sess) (m : InMsg) : Pres p g0 s (logonFinish s m).1 := by
+theorem firstTime_gapFillRe (s : Sess) (m : InMsg) (b e : Int) : firstTime (gapFillRe s m b e) = false := firstTime_gapFill b e
+
+theorem pres_nxEval (p : Bool) (g0 : G2) (s : Sess) (m : InMsg) (ns : Int) : Pres p g0 s (nxEval s m ns).1 := by
+  unfold nxEval
+  split
+  · split
+    · split
+      · split
+        · exact pres_enqueueAndSend p g0 s _ (firstTime_gapFillRe _ _ _ _)
+        · exact Pres.refl p g0 s
+      · exact Pres.refl p g0 s
+    · exact Pres.refl p g0 s
+  · exact Pres.refl p g0 s
+
+theorem pres_logonFinish (p : Bool) (g0 : G2) (s : Sess) (m : InMsg) (ns : Int) : Pres p g0 s (logonFinish s m ns).1 := by
   unfold logonFinish
+  have h : Pres p g0 s (nxEval (((s.setSentReset false).emit (.armPeer (1200 * s.hb))).emit .onLogon) m ns).1 :=
+    Pres.trans (by c2_peel) (pres_nxEval p g0 _ m ns)
+  generalize nxEval _ m ns = r at h
+  obtain ⟨x, o⟩ := r
+  cases o with
+  | some r => exact h
+  | none =>
+    dsimp only at h ⊢
+    c2_cases
+
+theorem pres_logonRefused (p : Bool) (g0 : G2) (s : Sess) (m : InMsg) : Pres p g0 s (logonRefused s m) := by
+  unfold logonRefused
   c2_cases
+
+theorem pres_logonTail (p : Bool) (g0 : G2) (s : Sess) (m : InMsg) (ns : Int) : Pres p g0 s (logonTail s m ns).1 := by
+  unfold logonTail
+  split
+  · exact pres_logonRefused p g0 s m
+  · exact (pres_logonReply p g0 s m _).trans (pres_logonFinish p g0 _ m _)
 
 theorem pres_handleLogon (p : Bool) (g0 : G2) (s : Sess) (m : InMsg) : Pres p g0 s (handleLogon s m).1 := by
   unfold handleLogon
@@ -577,7 +609,7 @@ theorem pres_handleLogon (p : Bool) (g0 : G2) (s : Sess) (m : InMsg) : Pres p g0
       have h4 := h3.trans hv2
       cases o2 with
       | some r => exact h4
-      | none => exact (h4.trans (pres_logonReply p g0 s4 m _)).trans (pres_logonFinish p g0 _ m)
+      | none => exact h4.trans (pres_logonTail p g0 s4 m _)
 
 theorem pres_inSessionFixMsgIn (p : Bool) (g0 : G2) (s : Sess) (m : InMsg) : Pres p g0 s (inSessionFixMsgIn s m).1 := by
   unfold inSessionFixMsgIn
